@@ -39,7 +39,7 @@ func (a c42Answer) String() string {
 
 type c42Step struct {
 	inPool, upToDate, locked, eligible, canRestore, chaosnet, beta c42Answer
-	joinFails, updateFails, restoreFails                          bool
+	joinFails, updateFails, restoreFails                           bool
 }
 
 func (s c42Step) String() string {
